@@ -53,7 +53,7 @@ theorem spec_size_prefix (dotu : Bool) (tag : UInt16) (m : Msg)
       (UInt32.ofNat (Spec.encode dotu tag m).length).toNat = (Spec.encode dotu tag m).length := by
   refine ⟨Spec.body dotu m, ?_, ?_⟩
   · rw [encode_length]; simp [Spec.encode, p8]
-  · rw [encode_length]; exact u32_toNat_of_lt _ h.1
+  · rw [encode_length]; exact u32_toNat_of_lt _ h.1.1
 
 /-- Decoding the protocol's bytes in the same dialect yields the same field values (with
     Go's defaults for fields the dialect does not carry), the tag, and consumes exactly
@@ -62,7 +62,7 @@ theorem unpack_encode (dotu : Bool) (tag : UInt16) (m : Msg) (rest : Bytes)
     (h : Spec.Rep dotu m) :
     Go.unpack dotu (Spec.encode dotu tag m ++ rest) =
       .ok (tag, Go.norm dotu m, (Spec.encode dotu tag m).length) :=
-  unpack_encode' dotu tag m rest h
+  unpack_encode' dotu tag m rest h.w
 
 /-- Constructor then decoder: the composition the statement talks about. -/
 theorem unpack_pack (dotu : Bool) (m : Msg) (buf : Bytes) (h : Spec.Rep dotu m)
@@ -75,7 +75,7 @@ theorem unpack_pack (dotu : Bool) (m : Msg) (buf : Bytes) (h : Spec.Rep dotu m)
 
 /-- Stat records on their own: `PackDir` is the protocol's record and `UnpackDir` inverts
     it, reporting the amount consumed and returning what follows. -/
-theorem stat_roundtrip (dotu : Bool) (d : Stat) (rest : Bytes) (h : Spec.statOk dotu d) :
+theorem stat_roundtrip (dotu : Bool) (d : Stat) (rest : Bytes) (h : Spec.statStrOk dotu d) :
     Go.packDir dotu d = Spec.stat dotu d ∧
     Go.unpackDir dotu (Go.packDir dotu d ++ rest) =
       .ok (Go.normStat dotu d, rest, (Go.packDir dotu d).length) := by
@@ -119,7 +119,7 @@ theorem rread_two_step (dotu : Bool) (c n : UInt32) (buf fill : Bytes)
 /-! ### non-vacuity: concrete, non-trivial messages satisfy `Rep` -/
 
 example : Spec.Rep false (.twalk 1 2 [[], [0x61], List.replicate 65535 0xff]) := by
-  refine ⟨?_, ?_, ?_⟩
+  refine ⟨⟨?_, ?_, ?_⟩, trivial⟩
   · simp only [Spec.body, Spec.strs, Spec.str, List.length_append, p32_length, p16_length,
       List.length_replicate, List.length_cons, List.length_nil]
     omega
@@ -130,7 +130,7 @@ example : Spec.Rep false (.twalk 1 2 [[], [0x61], List.replicate 65535 0xff]) :=
       simp only [Spec.strOk, List.length_replicate, List.length_cons, List.length_nil] <;> omega
 
 example : Spec.Rep true (.tread 0xFFFFFFFF 0xFFFFFFFFFFFFFFFF 0xFFFFFFFF) := by
-  simp [Spec.Rep, Spec.body]
+  simp [Spec.Rep, Spec.RepW, Spec.body]
 
 def exStat : Stat :=
   { typ := 1, dev := 2, qid := { typ := 0x80, vers := 3, path := 4 }, mode := 0x800001ed,
@@ -138,6 +138,6 @@ def exStat : Stat :=
     muid := [0x64], ext := [0x65], uidnum := 8, gidnum := 9, muidnum := 10 }
 
 example : Spec.Rep true (.rstat exStat) := by
-  simp [exStat, Spec.Rep, Spec.body, Spec.stat, Spec.statBody, Spec.str, Spec.qid, Spec.statOk, Spec.strOk]
+  simp [exStat, Spec.Rep, Spec.RepW, Spec.statStrOk, Spec.body, Spec.stat, Spec.statBody, Spec.str, Spec.qid, Spec.statOk, Spec.strOk]
 
 end G9.C01
